@@ -3,12 +3,16 @@ package main
 import (
 	"bytes"
 	"encoding/json"
+	"fmt"
 	"os"
 	"path/filepath"
+	"strings"
 	"sync"
+	"time"
 
 	"github.com/jsightapi/jsight-api-go-library/core"
 	"github.com/jsightapi/jsight-api-go-library/kit"
+	sfs "github.com/jsightapi/jsight-schema-go-library/fs"
 )
 
 // concCase: several projects processed concurrently in one process, each several
@@ -24,6 +28,9 @@ type concCase struct {
 	Cold int `json:"cold"`
 	// SharedBan: one WithBannedDirectives option VALUE built from these kinds is given to every case that asks for it
 	SharedBan []string `json:"shared_ban"`
+	// Writers: while Readers goroutines serialise one validated catalog, this many goroutines add tags and servers with
+	// fresh names to its collections (public setters); watchdog 20 s
+	Writers int `json:"writers"`
 }
 
 type concObs struct {
@@ -157,6 +164,86 @@ func cmdConc(line []byte, emit func(interface{})) {
 				}(r)
 			}
 			rg.Wait()
+		}
+	}
+	if c.Writers > 0 {
+		for i := range c.Cases {
+			if solo[i].Outcome != "ok" || i >= 4 {
+				continue
+			}
+			rootPath := filepath.Join(tops[i], "proj", c.Cases[i].Root)
+			content, err := os.ReadFile(rootPath)
+			if err != nil {
+				continue
+			}
+			cr := core.NewJApiCore(sfs.NewFile(rootPath, content), core.WithFixedSeedForRegex())
+			if cr.ValidateJAPI() != nil {
+				continue
+			}
+			nr := c.Readers
+			if nr < 2 {
+				nr = 2
+			}
+			const perWriter = 60
+			done := make(chan struct{})
+			var bad []string
+			var bmu sync.Mutex
+			go func() {
+				var wg sync.WaitGroup
+				for r := 0; r < nr; r++ {
+					wg.Add(1)
+					go func(r int) {
+						defer wg.Done()
+						for k := 0; k < 25; k++ {
+							var b []byte
+							var err error
+							if (r+k)%2 == 0 {
+								b, err = cr.Catalog().ToJson()
+							} else {
+								b, err = cr.Catalog().ToJsonIndent()
+							}
+							if err != nil || !json.Valid(b) {
+								bmu.Lock()
+								bad = append(bad, fmt.Sprintf("serialisation next to writers: err=%v valid=%v", err, json.Valid(b)))
+								bmu.Unlock()
+								return
+							}
+						}
+					}(r)
+				}
+				for w := 0; w < c.Writers; w++ {
+					wg.Add(1)
+					go func(w int) {
+						defer wg.Done()
+						for k := 0; k < perWriter; k++ {
+							_ = cr.Catalog().AddTag(fmt.Sprintf("@vfw%dx%d", w, k), "t")
+							_ = cr.Catalog().AddServer(fmt.Sprintf("@vfs%dx%d", w, k), "s")
+						}
+					}(w)
+				}
+				wg.Wait()
+				close(done)
+			}()
+			o.Runs++
+			select {
+			case <-done:
+				final, _ := cr.Catalog().ToJson()
+				for w := 0; w < c.Writers; w++ {
+					for k := 0; k < perWriter; k++ {
+						for _, key := range []string{fmt.Sprintf("\"@vfw%dx%d\":", w, k), fmt.Sprintf("\"@vfs%dx%d\":", w, k)} {
+							if n := strings.Count(string(final), key); n != 1 {
+								bad = append(bad, fmt.Sprintf("key %s appears %d times after the writers finished", key, n))
+							}
+						}
+					}
+				}
+			case <-time.After(20 * time.Second):
+				bad = append(bad, "deadlock: serialisations and writers of one catalog did not finish in 20 s")
+			}
+			if len(bad) > 0 && len(o.Diffs) < 5 {
+				d, _ := json.Marshal(map[string]interface{}{"case": c.Cases[i].ID, "writers": true, "solo": "ok", "concurrent": bad[0], "problems": len(bad)})
+				o.Diffs = append(o.Diffs, string(d))
+			}
 		}
 	}
 	emit(o)
